@@ -32,10 +32,30 @@ class Arr(Model):
     def eq(self, I, other):
         return isinstance(other, Arr) and I.equal(self.dg, other.dg)
 
+    def a_shape(self, I):
+        # all arrays of one harness have the same shape: the case in which only the bytes can tell them apart
+        return (alg.sym("shape_D", "Int"), alg.sym("shape_G", "Int"))
+
+    def a_size(self, I):
+        return alg.sym("shape_D", "Int") * alg.sym("shape_G", "Int")
+
+    def a_ndim(self, I):
+        return 2
+
+    def a_dtype(self, I):
+        return "float64"
+
+
+def _int_digest(I, arr):
+    # the same 64-bit digest as an unsigned integer
+    I.P.assume(z3.And(I.P.z(arr.dg) >= 0, I.P.z(arr.dg) < 2 ** 64), "xxh3_64 digests are 64-bit unsigned integers")
+    return arr.dg
+
 
 def registry():
     r = dsl.Registry()
     r.globals_override["xxh3_64_hexdigest"] = lambda I, arr: arr.dg
+    r.globals_override["xxh3_64_intdigest"] = _int_digest
     r.model_caches = True
     r.assumed += ["functools.lru_cache: a call is a hit iff some stored call has, argument by argument, the same hash and compares equal (LruFn model)",
                   "A-HASH: xxh3_64_hexdigest identifies an array's bytes", "A-FLOATHASH: hash() of two different concentration values differs", "M-CONV-SYM: the iterated truncated convolution is symmetric in its children (needed for adequacy of an order-insensitive key)"]
@@ -84,13 +104,14 @@ LIST_COVERS = ["list:permutation", "list:duplicate-child", "list:duplicate-among
 
 def h_pair_cache(I, deco_factory_fi):
     P = I.P
-    A, B, C = Arr("A"), Arr("B"), Arr("C")
-    P.assume(z3.And(P.z(A.dg) != P.z(B.dg), P.z(A.dg) != P.z(C.dg), P.z(B.dg) != P.z(C.dg)))
+    A, B, C, D = Arr("A"), Arr("B"), Arr("C"), Arr("D")
+    P.assume(z3.Distinct(P.z(A.dg), P.z(B.dg), P.z(C.dg), P.z(D.dg)))
     calls = []
     deco = I.call_function(deco_factory_fi, [], {"maxsize": 1024}, force_inline=True)
     wrapper = I.call(deco, [wrapped_recorder(calls)], {})
-    scen = P.decide(4)
-    first, second, expect_hit, label = [((A, B), (B, A), True, "swapped"), ((A, A), (A, B), False, "equal-pair-vs-mixed"), ((A, B), (A, C), False, "different"), ((A, B), (A, B), True, "same")][scen]
+    scen = P.decide(6)
+    first, second, expect_hit, label = [((A, B), (B, A), True, "swapped"), ((A, A), (A, B), False, "equal-pair-vs-mixed"), ((A, B), (A, C), False, "different"), ((A, B), (A, B), True, "same"),
+                                        ((A, A), (B, B), False, "two-pairs-of-twins"), ((A, B), (C, D), False, "disjoint-pairs")][scen]
     dsl.cover(I, "pair:" + label)
     v1 = I.call(wrapper, list(first), {})
     v2 = I.call(wrapper, list(second), {})
@@ -101,7 +122,7 @@ def h_pair_cache(I, deco_factory_fi):
         P.check("pair-cache.miss-on-different-pair[%s]" % label, len(calls) == 2 and calls[1][:2] == second, "a different pair is recomputed", kind="post")
 
 
-PAIR_COVERS = ["pair:swapped", "pair:equal-pair-vs-mixed", "pair:different", "pair:same"]
+PAIR_COVERS = ["pair:swapped", "pair:equal-pair-vs-mixed", "pair:different", "pair:same", "pair:two-pairs-of-twins", "pair:disjoint-pairs"]
 
 
 class HolderRec(Model):
